@@ -36,7 +36,6 @@ Inductive stage :=
 | SGitFind      (* ci: git branch finder *)
 | SGenerate     (* gen.GenerateStatic *)
 | SCheck        (* checkRules *)
-| SOwners       (* --require-owner: verifyOwners *)
 | SMinSeverity  (* lint: invalid --min-severity *)
 | SFailOn       (* invalid --fail-on *)
 | SOutputs      (* os.Create of the --checkstyle / --json files *)
@@ -54,12 +53,6 @@ Record outcome := {
 
 Definition failed (st : stage) (linted created submitted : bool) : outcome :=
   {| o_code := main_exit_code; o_stage := Some st; o_linted := linted; o_outputs_created := created; o_submitted := submitted |}.
-
-(** An unrecovered Go panic: the runtime prints the stack and exits with status 2.  verifyOwners dereferences
-    [rule.LastKey()] of an entry whose rule failed to parse (known finding C05-require-owner-broken-rule-crash). *)
-Definition panic_exit_code : Z := 2.
-Definition crashed (st : stage) : outcome :=
-  {| o_code := panic_exit_code; o_stage := Some st; o_linted := true; o_outputs_created := false; o_submitted := false |}.
 
 Definition passed (linted created submitted : bool) : outcome :=
   {| o_code := 0; o_stage := None; o_linted := linted; o_outputs_created := created; o_submitted := submitted |}.
@@ -81,8 +74,6 @@ Record lint_in := {
   li_find_ok : bool;
   li_generate_ok : bool;
   li_check_ok : bool;
-  li_require_owner : bool;        (* --require-owner *)
-  li_unowned_broken_rule : bool;  (* some entry (not removed, file readable) holds a rule that FAILED TO PARSE and has no allowed owner *)
   li_min_sev : option string;     (* --min-severity as given, None = omitted *)
   li_fail_on : option string;     (* --fail-on as given *)
   li_outputs_ok : bool;
@@ -90,14 +81,15 @@ Record lint_in := {
 }.
 
 (** [sevs] = severities of the reports held by the Summary (after Summary.Report's duplicate suppression and
-    verifyOwners), the only thing about the lint result the exit decision looks at. *)
+    verifyOwners), the only thing about the lint result the exit decision looks at.  --require-owner only ADDS reports
+    (verifyOwners has no error return and, since fix ec90fa6, skips entries whose rule failed to parse instead of
+    dereferencing their missing key), so it is not a stage. *)
 Definition action_lint (i : lint_in) (sevs : list Z) : outcome :=
   if negb (action_setup (li_setup i)) then failed SSetup false false false
   else if Nat.eqb (li_paths i) 0 then failed SArgs false false false
   else if negb (li_find_ok i) then failed SFind false false false
   else if negb (li_generate_ok i) then failed SGenerate false false false
   else if negb (li_check_ok i) then failed SCheck false false false
-  else if li_require_owner i && li_unowned_broken_rule i then crashed SOwners    (* nil dereference in verifyOwners *)
   else match parse_severity (flag_value "lint" "min-severity" (li_min_sev i)) with
   | None => failed SMinSeverity true false false
   | Some m =>
@@ -115,8 +107,6 @@ Definition action_lint (i : lint_in) (sevs : list Z) : outcome :=
 Definition lint_infra_ok (i : lint_in) : bool :=
   action_setup (li_setup i) && negb (Nat.eqb (li_paths i) 0) && li_find_ok i && li_generate_ok i && li_check_ok i &&
   li_outputs_ok i && li_submit_ok i.
-
-Definition lint_crashes (i : lint_in) : bool := li_require_owner i && li_unowned_broken_rule i.
 
 (** * pint ci *)
 
@@ -137,8 +127,6 @@ Record ci_in := {
   ci_git_find_ok : bool;
   ci_generate_ok : bool;
   ci_check_ok : bool;
-  ci_require_owner : bool;
-  ci_unowned_broken_rule : bool;
   ci_outputs_ok : bool;
   ci_reporters_ok : bool;
   ci_fail_on : option string;
@@ -155,7 +143,6 @@ Definition action_ci (i : ci_in) (sevs : list Z) : outcome :=
     else if negb (ci_git_find_ok i) then failed SGitFind false false false
     else if negb (ci_generate_ok i) then failed SGenerate false false false
     else if negb (ci_check_ok i) then failed SCheck false false false
-    else if ci_require_owner i && ci_unowned_broken_rule i then crashed SOwners
     else if negb (ci_outputs_ok i) then failed SOutputs true false false
     else if negb (ci_reporters_ok i) then failed SReporters true true false
     else match parse_severity (flag_value "ci" "fail-on" (ci_fail_on i)) with
@@ -167,8 +154,6 @@ Definition action_ci (i : ci_in) (sevs : list Z) : outcome :=
       else passed true true true
     end
   end.
-
-Definition ci_crashes (i : ci_in) : bool := ci_require_owner i && ci_unowned_broken_rule i.
 
 Definition ci_on_base (i : ci_in) : bool :=
   match ci_current_branch i with
@@ -198,3 +183,50 @@ Definition ci_nil_returns_ok (rs : list (bool * bool)) : bool :=
 
 Definition threshold_eqb (a b : string * string * string) : bool :=
   match a, b with (a1, a2, a3), (b1, b2, b3) => String.eqb a1 b1 && String.eqb a2 b2 && String.eqb a3 b3 end.
+
+(** * the order of the stages in the source (generated [lint_stage_seq] / [ci_stage_seq]) vs this model
+
+    For the exit status the order of the stages is immaterial (non-zero iff SOME stage fails) except for the facts below,
+    which are what the property depends on; they are checked on the generated sequences.  The exact order of the other
+    stages only decides WHICH stage is blamed and what happens to the report files on an early error — facts of the
+    model the property does not speak about (e.g. validating the flags before linting is a harmless change). *)
+Definition model_lint_stages : list string :=
+  ["SSetup"; "SArgs"; "SFind"; "SGenerate"; "SCheck"; "SMinSeverity"; "SFailOn"; "SOutputs"; "SSubmit"; "SThreshold"].
+Definition model_ci_stages : list string :=
+  ["SSetup"; "SBranch"; "SFind"; "SGitFind"; "SGenerate"; "SCheck"; "SOutputs"; "SReporters"; "SFailOn"; "SSubmit"; "SThreshold"].
+
+Fixpoint index_of (x : string) (l : list string) : option nat :=
+  match l with
+  | [] => None
+  | y :: r => if String.eqb x y then Some 0%nat else match index_of x r with Some n => Some (S n) | None => None end
+  end.
+
+(** first occurrence of [a] strictly before first occurrence of [b] *)
+Definition before (a b : string) (l : list string) : bool :=
+  match index_of a l, index_of b l with
+  | Some i, Some j => Nat.ltb i j
+  | _, _ => false
+  end.
+
+Definition same_stage_set (seq model : list string) : bool :=
+  forallb (fun x => String.eqb x "nil" || mem_str x model) seq && forallb (fun x => mem_str x seq) model.
+
+Definition ends_with_threshold_then_nil (seq : list string) : bool :=
+  match rev seq with
+  | n :: t :: _ => String.eqb n "nil" && String.eqb t "SThreshold"
+  | _ => false
+  end.
+
+(** every stage of the model occurs in the source and vice versa (a new error path is a translator error); the threshold
+    decision is the last error return, directly followed by the final [return nil]; linting, parsing --fail-on and
+    submitting all come before it; (ci) the one early nil return sits after the branch lookup and before linting. *)
+Definition lint_order_ok (seq : list string) : bool :=
+  same_stage_set seq model_lint_stages && ends_with_threshold_then_nil seq &&
+  before "SCheck" "SThreshold" seq && before "SFailOn" "SThreshold" seq && before "SSubmit" "SThreshold" seq &&
+  before "SCheck" "SSubmit" seq && before "SSetup" "SCheck" seq.
+
+Definition ci_order_ok (seq : list string) : bool :=
+  same_stage_set seq model_ci_stages && ends_with_threshold_then_nil seq &&
+  before "SCheck" "SThreshold" seq && before "SFailOn" "SThreshold" seq && before "SSubmit" "SThreshold" seq &&
+  before "SCheck" "SSubmit" seq && before "SSetup" "SCheck" seq &&
+  before "SBranch" "nil" seq && before "nil" "SFind" seq && before "nil" "SCheck" seq.
